@@ -702,7 +702,7 @@ class Evaluator:
         for g in e.generators:
             it = s.ev(g.iter, env2, mod, depth)
             # concrete list/tuple of known length with a single generator: expand
-            if len(e.generators) == 1 and isinstance(it, (list, tuple)) and kind != 'dict' and len(it) <= 24:
+            if len(e.generators) == 1 and isinstance(it, (list, tuple)) and len(it) <= 24:
                 out = []
                 for item in it:
                     env3 = {'__parent__': env}
@@ -710,9 +710,13 @@ class Evaluator:
                     fl = [s.truth(s.ev(c, env3, mod, depth)) for c in g.ifs]
                     if any(f is False for f in fl): continue
                     if any(f is not True for f in fl): out = None; break
-                    out.append(s.ev(e.elt, env3, mod, depth))
+                    if kind == 'dict': out.append((s.ev(e.key, env3, mod, depth), s.ev(e.value, env3, mod, depth)))
+                    else: out.append(s.ev(e.elt, env3, mod, depth))
                 if out is not None:
-                    return out if kind in ('list', 'gen') else Opq('set', *out)
+                    if kind == 'dict':
+                        if all(isinstance(k, (str, int, bool)) or k is None for k, _ in out): return {k: v for k, v in out}
+                    else:
+                        return out if kind in ('list', 'gen') else Opq('set', *out)
             depth_id = len(gens)
             bound = s.bind_iter(g.target, it, env2, mod, depth, depth_id)
             fs = [s.truth(s.ev(c, env2, mod, depth)) for c in g.ifs]
@@ -985,6 +989,14 @@ class Evaluator:
             return Opq('Σ', a)
         if name in ('min', 'max') and len(args) == 1 and isinstance(a, (list, tuple)) and all(isinstance(x, Poly) and x.real_const() is not None for x in a) and a:
             return Poly.const((min if name == 'min' else max)(x.real_const() for x in a))
+        if name == 'isinstance' and len(args) == 2:
+            kinds = args[1] if isinstance(args[1], tuple) else (args[1],)
+            names = [k.name for k in kinds if isinstance(k, Ref) and k.kind == 'builtin']
+            if len(names) == len(kinds):
+                actual = ('dict' if isinstance(a, dict) else 'list' if isinstance(a, list) else 'tuple' if isinstance(a, tuple) else
+                          'str' if isinstance(a, str) else 'bool' if isinstance(a, bool) else None)
+                if actual is not None: return actual in names or (actual == 'bool' and 'int' in names)
+            return Opq('isinstance', *args)
         if name == 'isinstance': return Opq('isinstance', *args)
         if name == 'type' and len(args) == 1:
             if isinstance(a, Rec): return Ref('class', a.clsref[0], a.clsref[1], a.cls) if a.clsref else Opq('type', a)
